@@ -201,6 +201,23 @@ func (x *Exec) specCall(env *evalEnv, n *ast.CallExpr) (Val, bool) {
 	case "isnil":
 		a := x.expr(env, n.Args[0])
 		return Val{x.eqVals(a, Val{"0", types.Typ[types.UntypedNil]}), tBool}, true
+	case "is_int":
+		a := x.expr(env, n.Args[0])
+		return Val{eq("(itag "+a.S+")", fmt.Sprint(x.ctx.TypeTag(tInt))), tBool}, true
+	case "as_int":
+		a := x.expr(env, n.Args[0])
+		return Val{"(ival " + a.S + ")", tInt}, true
+	case "perm", "perminv":
+		g, ok := x.st.ghost["sortperm"]
+		if !ok {
+			x.fail(n.Pos(), "perm()/perminv() need a preceding sort.SliceStable")
+		}
+		a := x.expr(env, n.Args[0])
+		fn := g.S
+		if id.Name == "perminv" {
+			fn = strings.Replace(fn, "perm!", "perminv!", 1)
+		}
+		return Val{"(" + fn + " " + a.S + ")", tInt}, true
 	case "seen":
 		// seen(k): ghost set of the innermost enclosing map-range loop
 		if v, ok := x.st.ghost["seen"]; ok {
